@@ -138,10 +138,11 @@ def catCtor (debug : Bool) (shapes : List (List Nat)) (dim : Nat) : Except Err (
     | .error e => .error e
     | .ok _ => .ok (s0.set dim (catSize shapes dim))
 
-/-- `cat_rows(cross_mat, new_mat)` with `generate_roots=False` under `settings.debug`: `to_linear_operator` needs ≥ 2-d
+/-- `cat_rows` as it was BEFORE 6da5c17 (no `is_square` guard), kept for the regression counterexample:
+`cat_rows(cross_mat, new_mat)` with `generate_roots=False` under `settings.debug`: `to_linear_operator` needs ≥ 2-d
 tensors; `self` is expanded to the broadcast batch if `cross_mat` has more dimensions; then
 `Cat(A, B, dim=-2)`, `Cat(B.mT, D, dim=-2)`, `Cat(upper, lower, dim=-1)`. -/
-def catRows (a c nw : List Nat) : Except Err (List Nat) :=
+def catRowsUnguarded (a c nw : List Nat) : Except Err (List Nat) :=
   match split2 a, split2 c, split2 nw with
   | some (A, m, n), some (C, _, _), some _ =>
     let a' : Option (List Nat) :=
@@ -159,6 +160,29 @@ def catRows (a c nw : List Nat) : Except Err (List Nat) :=
   | none, _, _ => .error .index
   | _, _, _ => .error .value
 
+/-- `cat_rows` as it is (6da5c17): `if not self.is_square: raise` first, then the three concatenations. -/
+def catRows (a c nw : List Nat) : Except Err (List Nat) :=
+  match split2 a with
+  | none => .error .index
+  | some (_, m, n) => if m ≠ n then .error .notSquare else catRowsUnguarded a c nw
+
+/-- index kinds of a `__getitem__` tuple (None-free) -/
+inductive Idx | int | slice | tensor | ellipsis
+  deriving DecidableEq, Repr
+
+/-- length of the index tuple after the ellipsis expansion and the padding with `_noop_index` in `__getitem__`
+(`range(k)` of a negative `k` is empty, hence the truncated subtractions). -/
+def expandedIndexLen (ndim : Nat) (idx : List Idx) : Nat :=
+  let l := if idx.count .ellipsis = 1 then (idx.length - 1) + (ndim - (idx.length - 1)) else idx.length
+  l + (ndim - l)
+
+/-- `__getitem__` (716435a): `if len(index) > ndimension: raise IndexError("too many indices …")`. -/
+def indexCountGuard (ndim : Nat) (idx : List Idx) : Except Err Unit :=
+  if expandedIndexLen ndim idx > ndim then .error .index else .ok ()
+
+/-- the same tuple handling without the guard (before 716435a): `zip(index, shape)` silently dropped the surplus -/
+def indexCountUnguarded (_ndim : Nat) (_idx : List Idx) : Except Err Unit := .ok ()
+
 /-- base `add_low_rank(B)` (`generate_roots=False`): `B.mT` needs ≥ 2 dims, `B @ B.mT` is `Bb ++ [k, k]`, then `self + …`
 (`broadcast_shapes`, which also lets a 1×1 product broadcast against the matrix dimensions). -/
 def addLowRank (a b : List Nat) : Except Err (List Nat) :=
@@ -169,6 +193,15 @@ def addLowRank (a b : List Nat) : Except Err (List Nat) :=
 end Impl
 
 namespace Spec
+
+/-- torch: "too many indices for tensor of dimension n" — every non-ellipsis entry of a None-free index tuple consumes one
+dimension (ints, slices and integer tensors alike). -/
+def nonEllipsis : List Impl.Idx → Nat
+  | [] => 0
+  | .ellipsis :: r => nonEllipsis r
+  | _ :: r => nonEllipsis r + 1
+
+def tooManyIndices (ndim : Nat) (idx : List Impl.Idx) : Bool := decide (nonEllipsis idx > ndim)
 
 /-- torch `B @ A` for `rmatmul` -/
 def rmatmulShape? (a b : List Nat) : Option (List Nat) := torchMatmulShape? b a
